@@ -447,6 +447,30 @@ mod if_alloc {
             }
         }
 
+        #[cfg(futures_intrusive_verif)]
+        impl<MutexType, T> GenericOneshotBroadcastSender<MutexType, T>
+        where
+            MutexType: RawMutex,
+            T: Clone + 'static,
+        {
+            /// Verification hook: snapshot of the channel
+            pub fn verif_snapshot(&self) -> crate::verif::Snapshot {
+                self.inner.channel.verif_snapshot()
+            }
+        }
+
+        #[cfg(futures_intrusive_verif)]
+        impl<MutexType, T> GenericOneshotBroadcastReceiver<MutexType, T>
+        where
+            MutexType: RawMutex,
+            T: Clone + 'static,
+        {
+            /// Verification hook: snapshot of the channel
+            pub fn verif_snapshot(&self) -> crate::verif::Snapshot {
+                self.inner.channel.verif_snapshot()
+            }
+        }
+
         // Export parking_lot based shared channels in std mode
         #[cfg(feature = "std")]
         mod if_std {
@@ -485,3 +509,39 @@ mod if_alloc {
 
 #[cfg(feature = "alloc")]
 pub use self::if_alloc::*;
+
+#[cfg(futures_intrusive_verif)]
+mod verif_hooks {
+    use super::*;
+    use crate::channel::channel_future::verif_hooks::recv_node_info;
+    use crate::verif::Snapshot;
+
+    impl<MutexType: RawMutex, T> GenericOneshotBroadcastChannel<MutexType, T> {
+        /// Verification hook: read-only snapshot of the internal state
+        pub fn verif_snapshot(&self) -> Snapshot {
+            let state = self.inner.lock();
+            let mut waiters = alloc::vec::Vec::new();
+            state
+                .waiters
+                .verif_for_each_oldest_first(1 << 16, &mut |n| {
+                    waiters.push(recv_node_info(n))
+                });
+            let mut newest_first = alloc::vec::Vec::new();
+            state
+                .waiters
+                .verif_for_each_newest_first(1 << 16, &mut |n| {
+                    newest_first.push(recv_node_info(n))
+                });
+            Snapshot {
+                flags: alloc::vec![
+                    ("is_fulfilled", state.is_fulfilled as u64),
+                    ("has_value", state.value.is_some() as u64),
+                ],
+                queues: alloc::vec![
+                    ("waiters", waiters),
+                    ("waiters_rev", newest_first)
+                ],
+            }
+        }
+    }
+}
